@@ -135,5 +135,21 @@ pub proof fn c05_default_filter_is_strict(tag: Seq<char>) ensures filter_spec(Se
         r.is_err() ==> ve_tag(r->Err_0) == tag@ && ve_is_temporary(r->Err_0),
 //@end
 
+// ---- what policy_err!(obj, tag, ..) expands to: obj.policy().policy_error(tag.into(), msg)? with SimplePolicy's implementation ----
+//@type vls-core/src/policy/simple_validator.rs :: SimplePolicy drop=dev_flags,global_velocity_control,fee_velocity_control
+impl SimplePolicy {
+//@fn vls-core/src/policy/simple_validator.rs :: impl Policy for SimplePolicy :: policy_error props=C05
+    ensures
+        r.is_err() == (filter_spec(self.filter.rules@, tag@) == FilterResult::Error),                 //[C05.filter.simple-policy-refuses-iff-its-filter-says-error]
+        r.is_err() ==> ve_tag(r->Err_0) == tag@ && ve_is_policy(r->Err_0),
+//@end
+
+//@fn vls-core/src/policy/simple_validator.rs :: impl Policy for SimplePolicy :: temporary_policy_error props=C05
+    ensures
+        r.is_err() == (filter_spec(self.filter.rules@, tag@) == FilterResult::Error),                 //[C05.filter.simple-policy-temporary-refuses-iff-error]
+        r.is_err() ==> ve_tag(r->Err_0) == tag@ && ve_is_temporary(r->Err_0),
+//@end
+}
+
 } // verus!
 fn main() {}
